@@ -788,7 +788,8 @@ class Engine:
         self.obl_count += 1
         info = dict(info)
         info['trace'] = ' > '.join(st.trace[-12:])
-        o = valid('%s/%s' % (self.label, name), list(st.pc) + interned_distinct(list(st.pc) + [goal]), goal, kind=kind, **info)
+        none_false = [z3.Not(self.ufs['truthy'](z3.Const('const_None', U)))] if 'truthy' in self.ufs else []  # None is false
+        o = valid('%s/%s' % (self.label, name), list(st.pc) + none_false + interned_distinct(list(st.pc) + none_false + [goal]), goal, kind=kind, **info)
         self.ctx.add(o, replay=getattr(self, 'replayer', None))
         return o
 
@@ -1614,7 +1615,7 @@ class Engine:
             if v.sort() == z3.StringSort():
                 return z3.Length(v) > 0
             if v.sort() == U:
-                return z3.And(v != z3.Const('const_None', U), self.uf('truthy', ['U'], 'bool')(v))  # None is false
+                return self.uf('truthy', ['U'], 'bool')(v)  # (None is false: a hypothesis of every obligation, see oblige)
         if isinstance(v, SDict):
             return v.items.len > 0
         if isinstance(v, SMap):
